@@ -77,7 +77,7 @@ def vhostOrder (c : Ctx) (m : Mesh) : List MeshSvc :=
   ++ sortSvcsByHost (on.filter (fun s => !hasWrapper c m.vss s))
 
 def svcDomains (c : Ctx) (m : Mesh) (s : MeshSvc) : List String × List String :=
-  generateVirtualHostDomains { hostname := s.host, addresses := if s.addr == "" then [] else [s.addr] }
+  generateVirtualHostDomains { hostname := s.host, aliases := s.aliases, addresses := if s.addr == "" then [] else [s.addr] }
     c.listenPort c.listenPort m.proxyDomain false
 
 def svcInput (c : Ctx) (m : Mesh) (s : MeshSvc) : VHInput :=
@@ -134,6 +134,15 @@ def certWild (c : Ctx) (m : Mesh) : Bool :=
       = (match longestStr (matchingWildcards m.vss s.host) with
          | some h => (m.vss.filter (fun v => v.hosts.contains h)).find? (vsApplies c)
          | none => none))
+
+/-- F-C12-4 side condition for a whole VirtualService: every destination resolves the same way
+    against the port-restricted and the full registry. -/
+def destsOK (c : Ctx) (vs : VirtualService) : Bool :=
+  vs.http.all (fun r => r.route.all (fun d => destViewOK c.listenPort (c.lookupService d.dest.host) d.dest))
+
+/-- Request-dependent side conditions of `sidecar_rds_correct`. -/
+def meshSide (re : Regex) (c : Ctx) (m : Mesh) (req : Request) : Bool :=
+  req.wf && m.vss.all (fun vs => sideConditions re vs req && destsOK c vs)
 
 def rdsCert (c : Ctx) (m : Mesh) : Bool :=
   certNoDrop c m && certNames c m && certPlain c m && certHygiene c m && certWild c m
